@@ -297,6 +297,9 @@ func runC07(w *World) *Result {
 	c07Lookup(w, cf, r, "R-C07-lookup")
 	c07Decl(w, cf, r)
 	NewnessStrictRule(w, cf, r, "R-C07-decl")
+	// the final-return check of a function body is made by the end-of-block callback: it is
+	// reached on every way out of the block reader and whatever the block holds
+	BlockEndCallbackRule(w, r, "R-C07-place")
 	r.Rule("R-C07-wiring", "what the driver tells the converters about a variable (its name and whether it is a global) is taken from that one variable: a local is never written as a global nor a global as a local", 5)
 	WiringRule(w, r, "R-C07-wiring", func(m string) bool {
 		return m == "VarDefinition" || m == "VarAssignment" || m == "VarEvaluation" || m == "SliceAssignment" || m == "Copy"
@@ -2640,6 +2643,88 @@ func IdentRule(w *World, r *Result, rule string) {
 	}
 	if n < 5 {
 		r.Bad(rule, "ident:sites", "-", fmt.Sprintf("only %d stores of variables into referring statements found", n))
+	}
+	// the other direction: a statement that defines variables carries variables made for the
+	// scope it stands in, never a definition that a look-up found (which may be a global, seen
+	// from inside a function: the definition would write the global)
+	declaring := map[string]bool{"VariableDefinition.variables": true, "VariableDefinitionCallAssignment.variables": true}
+	for _, fn := range w.Funcs("parser") {
+		perKey := map[string]int{}
+		for _, b := range fn.Blocks {
+			for _, ins := range b.Instrs {
+				st, ok := ins.(*ssa.Store)
+				if !ok {
+					continue
+				}
+				fa, ok := st.Addr.(*ssa.FieldAddr)
+				if !ok {
+					continue
+				}
+				pt, ok := fa.X.Type().Underlying().(*types.Pointer)
+				if !ok {
+					continue
+				}
+				named, ok := pt.Elem().(*types.Named)
+				if !ok || named.Obj().Pkg() != pkg {
+					continue
+				}
+				k := named.Obj().Name() + "." + structFieldName(fa.X.Type(), fa.Field)
+				if !declaring[k] {
+					continue
+				}
+				perKey[k]++
+				key := fmt.Sprintf("ident:fresh:%s@%s#%d", k, FuncName(fn), perKey[k])
+				found := ""
+				seen := map[ssa.Value]bool{}
+				var back func(v ssa.Value, d int)
+				back = func(v ssa.Value, d int) {
+					if v == nil || d > 8 || seen[v] || found != "" {
+						return
+					}
+					seen[v] = true
+					switch x := v.(type) {
+					case *ssa.Phi:
+						for _, e := range x.Edges {
+							back(e, d+1)
+						}
+					case *ssa.Extract:
+						if c, ok := x.Tuple.(*ssa.Call); ok {
+							if callee := c.Call.StaticCallee(); callee != nil && cf.lookups[callee] && x.Index == 0 {
+								found = w.Pos(c.Pos())
+							}
+						}
+					case *ssa.Call:
+						if bi, ok := x.Call.Value.(*ssa.Builtin); ok && bi.Name() == "append" {
+							back(x.Call.Args[0], d+1)
+							if len(x.Call.Args) > 1 {
+								for _, e := range variadicElems(x.Call.Args[1]) {
+									back(e, d+1)
+								}
+								back(x.Call.Args[1], d+1)
+							}
+						}
+					case *ssa.Slice:
+						for _, e := range variadicElems(x) {
+							back(e, d+1)
+						}
+					case *ssa.UnOp:
+						if al, ok := x.X.(*ssa.Alloc); ok {
+							for _, ref := range *al.Referrers() {
+								if s2, ok := ref.(*ssa.Store); ok && s2.Addr == ssa.Value(al) {
+									back(s2.Val, d+1)
+								}
+							}
+						}
+					}
+				}
+				back(st.Val, 0)
+				if found != "" {
+					r.Bad(rule, key, w.Pos(st.Pos()), "a statement that defines variables carries a definition found by a look-up ("+found+") instead of a variable made for the scope it stands in: inside a function a, b := f() with a global a writes the global")
+				} else {
+					r.Ok(rule, key, w.Pos(st.Pos()), "the variables of the definition are made for the current scope")
+				}
+			}
+		}
 	}
 	// reader/writer agreement of the storage key for global definitions
 	for fn := range cf.lookups {
